@@ -10,7 +10,7 @@ from hypothesis import strategies as st
 from .. import editmachine as em
 from .. import gen
 from ..editmachine import FST
-from ..oracle import S, S0
+from ..oracle import S, S0, S_fblank
 from ..runner import Skip, Violation, fst_site
 from . import c01, c04, c05, c07
 
@@ -49,7 +49,7 @@ ROUTES = ('put_slice', 'put_one_false', 'view_setslice', 'view_replace', 'setatt
 
 def params(tier):
     if tier == 'quick':
-        return {'examples': 3000, 'wall': 80, 'case_timeout': 40}
+        return {'examples': 3000, 'wall': 120, 'case_timeout': 40}
 
     return {'examples': 30000, 'wall': 600, 'case_timeout': 60}
 
@@ -540,6 +540,10 @@ def execute(case, ctx):
     if expected_S is not None and model_valid:
         got = S(tree1)
 
+        if got != expected_S and any(isinstance(x, ast.JoinedStr) for x in ast.walk(tree1)) and S_fblank(tree1) == S_fblank(rt):
+            ctx.count('fstring_debug_text_follows_the_edit(not part of the model)')  # f'{f()=}': the literal text of a self-documenting field is the source of its expression
+            got = expected_S
+
         if got != expected_S:
             from ..oracle import first_diff
 
@@ -585,7 +589,9 @@ def execute(case, ctx):
             if new_sigs is not None:
                 expect = old_sigs[:s2] + new_sigs + old_sigs[e2:]
 
-                if not expect and after != expect:
+                if after != expect and has_degenerate(root.a):
+                    ctx.count('degenerate_container_left_without_norm(documented)')  # 'a < (b < c)' minus 'a' leaves the one-operand Compare '(b < c)', which re-parses as the inner Compare
+                elif not expect and after != expect:
                     ctx.count('emptied_container_left_invalid_without_norm(documented)')  # e.g. 'with (a, b): pass' -> 'with (): pass' re-parses as one item '()'
                 elif after != expect and kind != 'arguments._all':
                     raise Violation('C03.model', f'{desc}: elements are not old[:{s2}] + new + old[{e2}:]\n got    {after}\n expect {expect}\n--- before ---\n{src[:400]}\n--- after ---\n{after_src[:400]}',
@@ -737,7 +743,9 @@ def execute(case, ctx):
 
                 lafter = None
 
-            if lafter is not None:
+            if lafter is not None and (has_degenerate(root.a) or has_degenerate(r4.a)):
+                ctx.count('layout_pair_with_degenerate_container_not_compared(documented invalid state without norm)')
+            elif lafter is not None:
                 ctx.count('layout_pairs')
 
                 if c07.norm_dump(lafter) != c07.norm_dump(tree1):
@@ -749,13 +757,10 @@ def execute(case, ctx):
         ctx.mark_nontrivial(case, {'op': desc, 'src': src[:200], 'after': after_src[:200]} if case['csel'] % 31 == 0 else None)
 
 
-def live_equals_source(root, tree1, desc, site):
-    """The container operation must leave the live tree equal to the parse of the new source (element order inside the real fields included):
-    a put through a virtual field that re-partitions args / keywords is where the two can drift apart while the text is right."""
+def has_degenerate(a) -> bool:
+    """Without norm an emptied / single-element container is documented to be left as an invalid intermediate state."""
 
-    from ..oracle import first_diff
-
-    for n in ast.walk(root.a):  # without norm an emptied / single-element container is documented to be left as an invalid intermediate state
+    for n in ast.walk(a):
         if (isinstance(n, ast.BoolOp) and len(n.values) < 2 or isinstance(n, ast.Compare) and not n.ops or isinstance(n, ast.MatchOr) and len(n.patterns) < 2
             or isinstance(n, (ast.ListComp, ast.SetComp, ast.DictComp, ast.GeneratorExp)) and not n.generators or isinstance(n, (ast.With, ast.AsyncWith)) and not n.items
             or isinstance(n, (ast.Assign, ast.Delete)) and not n.targets or isinstance(n, (ast.Import, ast.ImportFrom, ast.Global, ast.Nonlocal)) and not n.names
@@ -763,7 +768,19 @@ def live_equals_source(root, tree1, desc, site):
             or isinstance(n, ast.Match) and not n.cases
             or any(isinstance(getattr(n, f, None), list) and not getattr(n, f) for f in ('body',) if not isinstance(n, ast.Module))
         ):
-            return
+            return True
+
+    return False
+
+
+def live_equals_source(root, tree1, desc, site):
+    """The container operation must leave the live tree equal to the parse of the new source (element order inside the real fields included):
+    a put through a virtual field that re-partitions args / keywords is where the two can drift apart while the text is right."""
+
+    from ..oracle import first_diff
+
+    if has_degenerate(root.a):
+        return
 
     live, want = c07.norm_dump(root.a), c07.norm_dump(tree1)
 
